@@ -358,6 +358,13 @@ func c11Work(job c11Job) c11Res {
 }
 
 func init() {
+	JobFuncs["c11"] = func(b []byte) []byte {
+		var j c11Job
+		_ = json.Unmarshal(b, &j)
+		r := c11Work(j)
+		out, _ := json.Marshal(r)
+		return out
+	}
 	WorkerKinds["c11"] = func() {
 		defer hx.CleanWorkDir()
 		par.Serve(func(b []byte) []byte {
